@@ -30,6 +30,9 @@ def plan(pid, tier, seed):
         "gen": [],
         "rand": 400 if quick else 20000,
         "trace": TRACE,
+        # unbounded complement to C03_BudgetBound / termination: the budget invariant is inductive for ALL models
+        "apalache": ([{"module": "Budget", "init": "Init", "inv": "IndInv", "length": 0},
+                      {"module": "Budget", "init": "IndInv", "inv": "IndInv", "length": 1}] if pid == "C03" else []),
     }
 
 
